@@ -6,6 +6,7 @@ import (
 	"bytes"
 	"encoding/json"
 	"fmt"
+	pbredis "github.com/samaritan-proxy/samaritan/pb/config/protocol/redis"
 	"io"
 	"runtime"
 	"runtime/debug"
@@ -29,7 +30,8 @@ import (
 // (I) backend     every MOVED/ASK/CLUSTERDOWN error text shape through the client's reply handler with the real
 //                 upstream callbacks; every CLUSTER NODES text of <= 2 lines (+ selected 3-line texts) built from
 //                 field alphabets through the real parser and table update, under both map orders; huge slot
-//                 ranges in an isolated child; every SCAN reply shape through the scan hook
+//                 ranges in an isolated child; every SCAN reply shape through the scan hook; every prefix of the
+//                 compression header (and header + garbage) as a value returned to GET/HGETALL/MGET
 // (S) end to end  each crashing-candidate family once through the full stack with a second, well-behaved connection
 // oracle          no panic, no fatal error, child exits normally; every decoded request gets a reply; the other
 //                 connection still gets correct replies; memory obtained from the OS stays below 256 MiB + 4x the
@@ -399,6 +401,43 @@ func c11backend(env sched.Env) *sched.Report {
 		c := c11case{Kind: "scan", In: resp.Encode(sh)}
 		if s, d := c11scanShape(sh); s != "" {
 			fail(s, d, c)
+		}
+	}
+	// (4) values a backend may hold that look like the beginning of a compressed frame, returned to read commands
+	// through the decompression hook (which is registered whether or not compression is configured)
+	hdr := "(P$\x00\r\n"
+	var vals []string
+	for i := 0; i <= len(hdr); i++ {
+		vals = append(vals, hdr[:i], hdr[:i]+"x")
+	}
+	vals = append(vals, "(P$\x01\r\n", "(P$\xff\r\nabc", hdr+"\xff\x06\x00\x00sNaPpY", hdr+"\xff\x06\x00\x00sNaPpY\x00", hdr+hdr)
+	for _, cps := range []*pbredis.Compression{nil, c13cps(true, 8), c13cps(false, 8)} {
+		for _, v := range vals {
+			for _, shape := range []string{"get", "hgetall", "mget"} {
+				rep.Execs++
+				c := c11case{Kind: "framelike", Text: v, Rev: cps != nil && cps.Enable}
+				func() {
+					defer func() {
+						if r := recover(); r != nil {
+							fail("panic / frame-like value returned by a backend / "+panicPlace(), fmt.Sprintf("reply value %q to %s: %v", v, shape, r), c)
+						}
+					}()
+					chain := newRequestFilterChain()
+					chain.AddFilter(newCompressFilter(vfConfig(0, cps)))
+					var req *simpleRequest
+					var reply *RespValue
+					switch shape {
+					case "get":
+						req, reply = newSimpleRequest(newStringArray("get", "k")), newBulkBytes([]byte(v))
+					case "hgetall":
+						req, reply = newSimpleRequest(newStringArray("hgetall", "k")), newArray(*newBulkString("f"), *newBulkBytes([]byte(v)))
+					case "mget":
+						req, reply = newSimpleRequest(newStringArray("get", "k")), newArray(*newBulkBytes([]byte(v)), *newBulkBytes(nil))
+					}
+					chain.Do(req)
+					req.SetResponse(reply)
+				}()
+			}
 		}
 	}
 	rep.Distinct = rep.Execs
